@@ -12,7 +12,8 @@ Definition inv_in_wf (x : inv_in) : bool :=
 Definition inv_list_wf (l : list inv_in) : bool :=
   forallb inv_in_wf l && nodupb (map ii_rc l).
 Definition alloc_in_wf (a : alloc_in) : bool :=
-  forallb (fun x => 1 <=? snd x) (ai_res a) && nodupb (map fst (ai_res a)).
+  forallb (fun x => 1 <=? snd x) (ai_res a) && nodupb (map fst (ai_res a)) &&
+  negb (match ai_res a with [] => true | _ => false end).      (* "resources": minProperties 1 *)
 Definition cons_in_wf (c : cons_in) : bool :=
   forallb alloc_in_wf (ci_allocs c) && nodupb (map ai_rp (ci_allocs c)).
 Definition cons_list_wf (l : list cons_in) : bool :=
